@@ -2,10 +2,10 @@ package checks
 
 import (
 	"bytes"
-	"strings"
 	"crypto/rand"
 	"fmt"
 	"io"
+	"strings"
 
 	"github.com/ja7ad/otp"
 	"github.com/ja7ad/otp/verifharness/ev"
